@@ -9,7 +9,9 @@ import os, sys, subprocess, tempfile, shutil, json, re, time
 prop, which = sys.argv[1], sys.argv[2]
 budget = sys.argv[3] if len(sys.argv) > 3 else "10"
 extra = sys.argv[4:]
-src = "/tmp/mut/%s.out" % prop
+wave = os.environ.get("MUT_WAVE", "")
+src = "/tmp/mut/%s%s.out" % (prop, wave)
+label = which if not wave else {"A": "C", "B": "D"}[which]
 diff = os.path.join(src, which + ".diff")
 demo = os.path.join(src, "zz_demo_%s_%s_test.go" % (prop, which))
 env = dict(os.environ, GOFLAGS="-mod=mod", GOPROXY="off", GOSUMDB="off", GOTOOLCHAIN="local")
@@ -22,7 +24,7 @@ assert place, "no place-in line"
 d = tempfile.mkdtemp(prefix="mseed-", dir="/tmp"); os.rmdir(d)
 scratch = tempfile.mkdtemp(prefix="mseed-out-", dir="/tmp")
 subprocess.check_call(["git", "-C", "/repo", "worktree", "add", "-q", "--detach", d, "HEAD"])
-meta = {"property": prop, "variant": which, "confirmed_at_repo_commit": subprocess.run(["git", "-C", "/repo", "rev-parse", "--short", "HEAD"], stdout=subprocess.PIPE, text=True).stdout.strip(), "ran": []}
+meta = {"property": prop, "variant": label, "wave": wave or "w1/w2", "confirmed_at_repo_commit": subprocess.run(["git", "-C", "/repo", "rev-parse", "--short", "HEAD"], stdout=subprocess.PIPE, text=True).stdout.strip(), "ran": []}
 def run(cmd, cwd=d, e=env):
     p = subprocess.run(cmd, shell=True, cwd=cwd, env=e, stdout=subprocess.PIPE, stderr=subprocess.STDOUT, text=True)
     return p.returncode, p.stdout
@@ -66,7 +68,7 @@ meta["confirmed"] = ok
 notes = os.path.join(src, "notes.md")
 print(json.dumps(meta, indent=1))
 if ok:
-    dst = "/verif/seeded/%s-%s" % (prop, which)
+    dst = "/verif/seeded/%s-%s" % (prop, label)
     os.makedirs(dst, exist_ok=True)
     shutil.copy(diff, os.path.join(dst, "patch.diff"))
     shutil.copy(demo, os.path.join(dst, os.path.basename(demo)))
